@@ -4,4 +4,8 @@ from . import overlay
 
 def build(reg):
     specs = overlay.add_overlay(reg) + overlay.add_overlay_strings(reg)
-    return {"verify": specs, "lemmas": [], "trusted": [overlay.T1_READ], "assumptions": ["iteration order of the result dict (alphabetical) is not modelled"]}
+    from pyvc.api import SpecRegistry
+
+    specs += overlay.add_writers(reg)
+    specs += overlay.add_copy_move(reg)
+    return {"verify": specs, "lemmas": [], "trusted": [overlay.T1_READ, overlay.T1_WRITE], "assumptions": ["iteration order of the result dict (alphabetical) is not modelled"]}
